@@ -49,7 +49,7 @@ func cmdList(args []string) int {
 	verif := fs.String("verif", "/verif", "verification root")
 	tier := fs.String("tier", "quick", "tier")
 	fs.Parse(args)
-	g, err := Load(*repo, *verif, []string{"stack", "internal"})
+	g, err := Load(*repo, *verif, []string{"stack", "internal"}, 0)
 	if err != nil {
 		fmt.Fprintln(os.Stderr, err)
 		return 2
@@ -73,6 +73,7 @@ func cmdCheck(args []string) int {
 	noReplay := fs.Bool("no-replay", false, "skip native replay")
 	timeout := fs.Int("timeout", 30000, "solver timeout per query (ms)")
 	maxPaths := fs.Int("max-paths", 0, "stop a harness after this many paths (0 = no limit)")
+	bufSize := fs.Int("bufsize", 0, "reduce reader.go's buffer to this many bytes in the overlay copy (0 = real size)")
 	cpuprof := fs.String("cpuprofile", "", "write cpu profile")
 	instFilter := fs.String("inst", "", "only instances whose description contains this")
 	noEvidence := fs.Bool("no-evidence", false, "do not write the evidence file")
@@ -87,7 +88,7 @@ func cmdCheck(args []string) int {
 		return 2
 	}
 	t0 := time.Now()
-	g, err := Load(*repo, *verif, []string{"stack", "internal"})
+	g, err := Load(*repo, *verif, []string{"stack", "internal"}, *bufSize)
 	if err != nil {
 		fmt.Fprintln(os.Stderr, "load failed:", err)
 		return 2
@@ -231,12 +232,14 @@ func (g *Engine) checkProperty(prop string, hs []*Harness, tier string, seed int
 		os.MkdirAll(outDir, 0o755)
 	}
 	seen := map[string]bool{}
+	perHarness := map[string]int{}
 	for i, v := range allViol {
-		key := v.Instance.H.Name + "|" + v.Kind + "|" + v.Label + "|" + v.Site
-		if seen[key] {
+		key := v.Instance.String() + "|" + v.Kind + "|" + v.Label + "|" + v.Site
+		if seen[key] || perHarness[v.Instance.H.Name+"|"+v.Label] >= 4 {
 			continue
 		}
 		seen[key] = true
+		perHarness[v.Instance.H.Name+"|"+v.Label]++
 		path := filepath.Join(outDir, fmt.Sprintf("%s_%d.json", v.Instance.H.Name, i))
 		rec := map[string]interface{}{"property": prop, "harness": v.Instance.H.Name, "args": v.Instance.Args, "kind": v.Kind,
 			"label": v.Label, "site": v.Site, "model": v.Model, "stack": v.Stack, "witness": renderModel(v.Model)}
